@@ -1,5 +1,5 @@
 (* C18 — input is consumed in bounded chunks, each record once per pass. *)
-From Verif Require Import Prelude Chunks ChunksP.
+From Verif Require Import Prelude Chunks ChunksP ChunksBuf ChunksBufP.
 From Coq Require Import Permutation.
 Open Scope nat_scope.
 
@@ -28,6 +28,41 @@ Theorem C18_probe_chunkwise : forall lens off idx,
     (map (fun i => (i + off)%Z) (filter (fun i => ((0 <=? i) && (i <? fold_right Z.add 0 lens))%Z) idx)).
 Proof. exact probe_run_spec. Qed.
 Print Assumptions C18_probe_chunkwise.
+
+(* ---------------- Parquet: row groups are the unit of access ---------------- *)
+(* the chunks delivered are the chunks of the concatenated row groups (every row once, consecutive, at most cs) *)
+Theorem C18_parquet_chunks : forall (A : Type) cs (groups : list (list A)),
+  parquet_chunks cs groups = chunks cs (concat groups).
+Proof. exact @parquet_chunks_eq. Qed.
+Print Assumptions C18_parquet_chunks.
+
+(* whatever the row-group layout, the reader never holds more than one chunk plus one row group *)
+Theorem C18_parquet_buffer_bound : forall (A : Type) cs m (groups : list (list A)),
+  1 <= cs -> Forall (fun g => length g <= m) groups ->
+  Forall (fun p => p < cs + m) (parquet_buffer_trace cs groups).
+Proof. exact @parquet_buffer_bound. Qed.
+Print Assumptions C18_parquet_buffer_bound.
+
+(* row groups are requested in file order, none twice, none skipped *)
+Theorem C18_parquet_requests_in_order : forall (A : Type) cs (groups : list (list A)),
+  exists k, k <= length groups /\ concat (parquet_request_trace cs groups) = seq 0 k.
+Proof. exact @parquet_requests_in_order. Qed.
+Print Assumptions C18_parquet_requests_in_order.
+
+(* and only as far as the next chunk needs: no read-ahead *)
+Theorem C18_parquet_no_read_ahead : forall (A : Type) cs (file cache : list (list A)),
+  let '(c1, f1) := load_groups cs cache file in
+  let k := length file - length f1 in
+  c1 = cache ++ firstn k file /\ f1 = skipn k file /\
+  (k = 0 \/ cache_size (cache ++ firstn (k - 1) file) < cs).
+Proof. exact @parquet_no_read_ahead. Qed.
+Print Assumptions C18_parquet_no_read_ahead.
+
+Example C18_parquet_concrete :
+  parquet_load_trace 4 [[1;2;3];[4;5;6];[7;8;9];[10]] = [2; 1; 1]
+  /\ parquet_buffer_trace 4 [[1;2;3];[4;5;6];[7;8;9];[10]] = [6; 5; 2]
+  /\ c18_parquet_loads_case 30 [30;30;10;10;10;10] [1;1;3;1] = 0.
+Proof. vm_compute. repeat split; reflexivity. Qed.
 
 Example C18_concrete : slices 10 4 = [(0,4);(4,8);(8,10)] /\ random_sizes 10 4 = [4;4;2].
 Proof. vm_compute. split; reflexivity. Qed.
